@@ -102,6 +102,24 @@ def main():
                                 f"but the sampler returned (row {iy}, col {ix})", input={"variant": variant, "ny": ny, "nx": nx, "lon_turns": frs(u + k), "lat_turns": frs(v)})
             if len(h.samples) < 4:
                 h.sample({"variant": variant, "shape": [ny, nx], "point": [frs(pts[0][0]), frs(pts[0][1])], "index": py[-len(pts)]})
+    # the poles exactly (lat = ±π/2 as the code's own HALFPI): the only rows whose cells contain them are the first / last,
+    # whatever the half-way rounding does — an index that wraps instead of being clipped shows here
+    for variant, mk in variants.items():
+        for (ny, nx) in shapes:
+            data = (np.arange(ny * nx).reshape(ny, nx)).astype(np.int64)
+            try:
+                smp = mk(data)
+                lon = np.array([[rng.uniform(-7.0, 7.0) for _ in range(6)]])
+                for sign, want in ((1.0, 0), (-1.0, ny - 1)):
+                    got = smp(lon, np.full_like(lon, sign * (np.pi / 2)))
+                    rows = sorted(set(int(g) // nx for g in got.ravel()))
+                    h.case(("pole", variant, ny, nx, sign))
+                    h.count("pole", variant)
+                    if rows != [want]:
+                        h.violation(f"pole:{variant}", f"{variant} map {ny}x{nx}: latitude {'+' if sign > 0 else '-'}pi/2 is in row {want} only, the sampler returned row(s) {rows}",
+                                    input={"variant": variant, "ny": ny, "nx": nx, "lat": sign * (np.pi / 2), "lon": [float(x) for x in lon.ravel()]})
+            except Exception as e:
+                h.violation(f"pole-crash:{variant}", f"{variant} sampler {ny}x{nx} at a pole raised {type(e).__name__}: {e}", input=[variant, ny, nx])
     # colour axes and request shapes
     rgb = np.zeros((6, 12, 3), dtype=np.uint8)
     rgb[..., 0] = np.arange(6)[:, None]
